@@ -962,6 +962,8 @@ def sweep_cases(tier):
     for ld in (0, 1, 8, 15, 16, 16 * on - 16, 16 * on - 1, 16 * on + 1, 16 * on + 8, 16 * on + 15):
         out.append(('dstuSign', dict(params=par, ld=ld, hash=bytes(no), privkey=le(1, on), rng=le(5, on))))
         out.append(('dstuVerify', dict(params=par, ld=ld, hash=bytes(no), sig=bytes((ld + 7) // 8), pubkey=dpub)))
+    for d in (0, D['n'], (1 << (8 * on)) - 1):                  # dstu.h, dstuSign: \\expect{ERR_BAD_PRIVKEY}
+        out.append(('dstuSign', dict(params=par, ld=16 * on, hash=bytes(no), privkey=le(d, on), rng=le(5, on))))
     for bad in (dict(D, p=(159, 7, 6, 3)), dict(D, p=(510, 7, 6, 3)), dict(D, p=(0, 0, 0, 0)), dict(D, A=2), dict(D, A=255)):
         bp = dstu_enc(bad)
         out += [('dstuParamsVal', dict(params=bp)), ('dstuPointVal', dict(params=bp, point=dpub)), ('dstuKeypairGen', dict(params=bp, rng=le(5, on))),
